@@ -224,6 +224,12 @@ def run_shard(d):
 
 def replay(v):
     d = v['shard']
+    if (v.get('detail') or {}).get('sigkey') == 'history_dependent':
+        def stp(c, x):
+            for w, val in zip(c.free, x):
+                w.put(val)
+            c.sim.clk(1)
+        return core.replay_history_dependence(lambda: build(d), lambda c: (c.sys, c.free), stp, v['trace'])
     c = build(d)
     obs = []
     s = c.model.init
